@@ -93,6 +93,7 @@ class ScriptEnv:
     self.fail_suggest = None  # exception class name raised by policy.suggest
     self.fail_stop = None
     self.fail_factory = None
+    self.fail_once = False    # the scripted failure happens at the first invocation only (a transient fault)
     self.stop_answer = False
     self.stop_extra_ids = ()  # decisions for further trial ids
     self.stop_omit_requested = False
@@ -136,7 +137,10 @@ class ScriptedPolicy(pythia.Policy):
         e.entered.set()
       gate.wait(timeout=20)
     if e.fail_suggest:
-      raise _EXC[e.fail_suggest]('scripted failure in suggest')
+      exc = _EXC[e.fail_suggest]('scripted failure in suggest')
+      if e.fail_once:
+        e.fail_suggest = None
+      raise exc
     k = 0 if e.deliver_zero else max(0, request.count + e.delta)
     base = request.max_trial_id
     if e.label_seq is not None:
@@ -149,7 +153,10 @@ class ScriptedPolicy(pythia.Policy):
     e = self._env
     e.stop_calls += 1
     if e.fail_stop:
-      raise _EXC[e.fail_stop]('scripted failure in early_stop')
+      exc = _EXC[e.fail_stop]('scripted failure in early_stop')
+      if e.fail_once:
+        e.fail_stop = None
+      raise exc
     ids = [] if e.stop_omit_requested else sorted(request.trial_ids or [])
     ids += [i for i in e.stop_extra_ids if i not in ids]
     ds = [pythia.EarlyStopDecision(id=i, reason='scripted', should_stop=bool(e.stop_answer)) for i in ids]
@@ -282,10 +289,43 @@ class Backend:
     if self.kind == 'sqlfile' and self.path and os.path.exists(self.path):
       os.remove(self.path)
 
+  def pending_transaction(self):
+    """True if the SQL connection of the server is inside a transaction although no call is in progress: whatever was
+    written there has been acknowledged but is not durable, and is undone by the next rollback."""
+    if self.kind == 'ram':
+      return False
+    try:
+      return bool(self.raw().in_transaction)
+    except Exception:  # pylint: disable=broad-except
+      return False
+
+  def settle(self):
+    """Commits a transaction left open by the code under test (what the next successful write would do), so that the
+    exploration can go on after the finding has been reported."""
+    if self.kind != 'ram':
+      try:
+        self.ds._connection.commit()
+      except Exception:  # pylint: disable=broad-except
+        try:
+          self.raw().commit()
+        except Exception:  # pylint: disable=broad-except
+          pass
+
+  def switch(self):
+    """Two live server objects over one stored state (two worker processes with the default local client; two replicas):
+    toggles which of them serves the next calls. sqlfile: separate datastore objects on one file; otherwise a shared one."""
+    if not hasattr(self, '_others'):
+      other = self._new_servicer(fresh=False) if self.kind == 'sqlfile' else self._new_servicer(fresh=False, datastore=self.ds)
+      self._others = [other]
+    self._others.append(self.servicer)
+    self.servicer = self._others.pop(0)
+
   # -- snapshots
   def snapshot(self):
     if self.kind == 'ram':
       return copy.deepcopy(self.ds._owners)
+    if self.pending_transaction():
+      self.settle()          # a backup of a connection with an open write transaction would wait for ever
     snap = sqlite3.connect(':memory:')
     self.raw().backup(snap)
     return snap
@@ -600,6 +640,9 @@ def apply(backend, a):
   if k == 'Restart':
     backend.restart()
     return 'OK', ('Restart',), None
+  if k == 'Switch':
+    backend.switch()
+    return 'OK', ('Switch',), None
   backend.env.reset()
   for kk, v in env_of(a).items():
     setattr(backend.env, kk, v)
